@@ -35,9 +35,10 @@ RULE = (
     "build_fresh().commit(&inputs) (every 6th iteration quick / 12th thorough); each rendered with {:?} and {:#?}. "
     "(a) each rendering is one case: segments = ALL fields incl. the private ones + mode, out = bytes of the real string; distinct = "
     "distinct (type, fields, mode); every case is non-trivial unless the model reports a malformed/unknown case. "
-    "(b) `--check`: a twin with the same public side (and the same path length, which `depth` publishes) and every private field "
-    "re-drawn to a different value must render byte-identically (Nullifier::from_preimage excepted: its printed hash is the public "
-    "nullifier, a function of the secret by design). "
+    "(b) `--check`: two twins with the same public side and every private field re-drawn to a different value must render "
+    "byte-identically: one with the same path length, one with a different path length (the latter not compared for "
+    "ZkMerkleProofData::{try_from, new}, whose `depth` publishes siblings.len()); Nullifier::from_preimage is excepted (its printed "
+    "hash is the public nullifier, a function of the secret by design). "
     "(c) `--check`: needles of every private value - integers in decimal and bare lower/upper hex (the 0x-prefixed and zero-padded "
     "forms contain the bare form), LE/BE byte strings as hex and as decimal lists; for byte strings every 4-byte window as `a, b, c, d` "
     "and as hex in both cases (any longer run or whole-array rendering contains one); felt encodings: 8-byte LE limbs "
